@@ -347,10 +347,10 @@ def judge_final(case, refs, r, vd, cfg):
         if temps and r.exit_normal and not case.get("temp_may_remain"):
             vd.add("temp-left-after-reported-failure", temps=temps, config=cfg, fired=r.fired[:2], stderr=r.stderr[:200].decode("utf-8", "replace"))
         if case["kind"] == "refused":
-            # nothing may be modified at or after the refused file; for prepipe nothing at all
-            first = case.get("refused_from", 0)
+            # "refused before anything is modified": no named file may have changed, wherever in the list the
+            # refusable input stands
             for i, st in enumerate(states):
-                if i >= first and st == "new":
+                if st == "new":
                     vd.add("refused-input-modified", name=case["names"][i], config=cfg)
                     return
     if case["kind"] == "refused" and r.code == 0:
